@@ -137,6 +137,9 @@ structure DS where
   actuation : List Bool := []
   vplus : VecN Q := fun _ => 0
   lastFDC : List String := []
+  /-- which of the position / velocity / acceleration caches are known to describe the current
+      state (bit 0, 1, 2): set by UK / UKC, cleared by everything that may touch state or workspace -/
+  kfresh : Nat := 0
 
 def DS.fresh (id : String) : DS :=
   let m : ModelS Q := ModelS.init
@@ -345,9 +348,9 @@ def doCsCall (d : DS) (name : String) (t : Toks) : Option (DS × String) :=
     let lhs1 := listSub (listAdd (matVec cs.H qdd) cs.N) (matTVec cs.G nd lam)
     let r := also (also r d "FDC.eom.lhs" (showList lhs1)) d "FDC.eom.rhs" (showVec d.tau nd)
     let r := also (also r d "FDC.acc.lhs" (showList (matVec cs.G qdd))) d "FDC.acc.rhs" (showList cs.gamma)
-    let r := if d.lastFDC.isEmpty then r else
-      also (also r d "FDC.agree.lhs" (" ".intercalate d.impl)) d "FDC.agree.rhs" (" ".intercalate d.lastFDC)
-    some ({ r.1 with lastFDC := d.impl }, r.2)
+    let r := if d.lastFDC.headD "" ≠ "FDC" then r else
+      also (also r d "FDC.agree.lhs" (" ".intercalate d.impl)) d "FDC.agree.rhs" (" ".intercalate d.lastFDC.tail)
+    some ({ r.1 with lastFDC := "FDC" :: d.impl }, r.2)
   | "IMP" =>
     let r := out d name (" ".intercalate d.impl)
     if d.impl.isEmpty then some r else
@@ -370,9 +373,9 @@ def doCsCall (d : DS) (name : String) (t : Toks) : Option (DS × String) :=
         also (also r d "IMP.same.lhs" (" ".intercalate d.impl)) d "IMP.same.rhs"
           (showVec d.qd nd ++ " " ++ showList ((List.range nc).map (fun _ => 0)))
       else r
-    let r := if d.lastFDC.isEmpty then r else
-      also (also r d "IMP.agree.lhs" (" ".intercalate d.impl)) d "IMP.agree.rhs" (" ".intercalate d.lastFDC)
-    some ({ r.1 with lastFDC := d.impl }, r.2)
+    let r := if d.lastFDC.headD "" ≠ "IMP" then r else
+      also (also r d "IMP.agree.lhs" (" ".intercalate d.impl)) d "IMP.agree.rhs" (" ".intercalate d.lastFDC.tail)
+    some ({ r.1 with lastFDC := "IMP" :: d.impl }, r.2)
   | "IDC" | "IDCR" =>
     let r := out d name (" ".intercalate d.impl)
     if d.impl.isEmpty then some r else
@@ -572,55 +575,55 @@ def doCall (d : DS) (t : Toks) : DS × String :=
     let (id, t) := t.nat; let (p, t) := t.v3; let (u, _) := t.nat
     let (w, r) := calcBodyToBaseCoordinates m d.w d.st id p (u ≠ 0)
     let o := out { d with w := w } name (showV3 r)
-    if u ≠ 0 then also o d "B2B.spec" (showV3 (Spec.bodyToBase d.specModel d.specState id p)) else o
+    if (u ≠ 0 || d.kfresh / 1 % 2 = 1) then also o d "B2B.spec" (showV3 (Spec.bodyToBase d.specModel d.specState id p)) else o
   | "BASE2B" =>
     let (id, t) := t.nat; let (p, t) := t.v3; let (u, _) := t.nat
     let (w, r) := calcBaseToBodyCoordinates m d.w d.st id p (u ≠ 0)
     let o := out { d with w := w } name (showV3 r)
-    if u ≠ 0 then also o d "BASE2B.spec" (showV3 (Spec.baseToBody d.specModel d.specState id p)) else o
+    if (u ≠ 0 || d.kfresh / 1 % 2 = 1) then also o d "BASE2B.spec" (showV3 (Spec.baseToBody d.specModel d.specState id p)) else o
   | "ORI" =>
     let (id, t) := t.nat; let (u, _) := t.nat
     let (w, r) := calcBodyWorldOrientation m d.w d.st id (u ≠ 0)
     let o := out { d with w := w } name (showM3 r)
-    if u ≠ 0 then also o d "ORI.spec" (showM3 (Spec.orientation d.specModel d.specState id)) else o
+    if (u ≠ 0 || d.kfresh / 1 % 2 = 1) then also o d "ORI.spec" (showM3 (Spec.orientation d.specModel d.specState id)) else o
   | "PJ" =>
     let (id, t) := t.nat; let (p, t) := t.v3; let (u, t) := t.nat; let zeroInit := t.l.headD "" = "z"
     let (G, _) := ginit d t
     let (w, G) := calcPointJacobian m d.w d.st id p G (u ≠ 0)
     let o := out { d with w := w } name (showMat G 3 m.qdotSize)
-    if u ≠ 0 && zeroInit then also o d "PJ.spec" (showList (Spec.pointJacobian d.specModel d.specState id p)) else o
+    if (u ≠ 0 || d.kfresh / 1 % 2 = 1) && zeroInit then also o d "PJ.spec" (showList (Spec.pointJacobian d.specModel d.specState id p)) else o
   | "PJ6" =>
     let (id, t) := t.nat; let (p, t) := t.v3; let (u, t) := t.nat; let zeroInit := t.l.headD "" = "z"
     let (G, _) := ginit d t
     let (w, G) := calcPointJacobian6D m d.w d.st id p G (u ≠ 0)
     let o := out { d with w := w } name (showMat G 6 m.qdotSize)
-    if u ≠ 0 && zeroInit then also o d "PJ6.spec" (showList (Spec.pointJacobian6D d.specModel d.specState id p)) else o
+    if (u ≠ 0 || d.kfresh / 1 % 2 = 1) && zeroInit then also o d "PJ6.spec" (showList (Spec.pointJacobian6D d.specModel d.specState id p)) else o
   | "BSJ" =>
     let (id, t) := t.nat; let (u, t) := t.nat; let zeroInit := t.l.headD "" = "z"
     let (G, _) := ginit d t
     let (w, G) := calcBodySpatialJacobian m d.w d.st id G (u ≠ 0)
     let o := out { d with w := w } name (showMat G 6 m.qdotSize)
-    if u ≠ 0 && zeroInit then also o d "BSJ.spec" (showList (Spec.bodySpatialJacobian d.specModel d.specState id)) else o
+    if (u ≠ 0 || d.kfresh / 1 % 2 = 1) && zeroInit then also o d "BSJ.spec" (showList (Spec.bodySpatialJacobian d.specModel d.specState id)) else o
   | "PV" =>
     let (id, t) := t.nat; let (p, t) := t.v3; let (u, _) := t.nat
     let (w, r) := calcPointVelocity m d.w d.st d.qd id p (u ≠ 0)
     let o := out { d with w := w } name (showV3 r)
-    if u ≠ 0 then also o d "PV.spec" (showV3 (Spec.pointVelocity d.specModel d.specState id p)) else o
+    if (u ≠ 0 || d.kfresh / 2 % 2 = 1) then also o d "PV.spec" (showV3 (Spec.pointVelocity d.specModel d.specState id p)) else o
   | "PV6" =>
     let (id, t) := t.nat; let (p, t) := t.v3; let (u, _) := t.nat
     let (w, r) := calcPointVelocity6D m d.w d.st d.qd id p (u ≠ 0)
     let o := out { d with w := w } name (showSV r)
-    if u ≠ 0 then also o d "PV6.spec" (showSV (Spec.pointVelocity6D d.specModel d.specState id p)) else o
+    if (u ≠ 0 || d.kfresh / 2 % 2 = 1) then also o d "PV6.spec" (showSV (Spec.pointVelocity6D d.specModel d.specState id p)) else o
   | "PA" =>
     let (id, t) := t.nat; let (p, t) := t.v3; let (u, _) := t.nat
     let (w, r) := calcPointAcceleration m d.w d.st d.qd d.qdd id p (u ≠ 0)
     let o := out { d with w := w } name (showV3 r)
-    if u ≠ 0 then also o d "PA.spec" (showV3 (Spec.pointAcceleration d.specModel d.specState id p)) else o
+    if (u ≠ 0 || d.kfresh / 4 % 2 = 1) then also o d "PA.spec" (showV3 (Spec.pointAcceleration d.specModel d.specState id p)) else o
   | "PA6" =>
     let (id, t) := t.nat; let (p, t) := t.v3; let (u, _) := t.nat
     let (w, r) := calcPointAcceleration6D m d.w d.st d.qd d.qdd id p (u ≠ 0)
     let o := out { d with w := w } name (showSV r)
-    if u ≠ 0 then also o d "PA6.spec" (showSV (Spec.pointAcceleration6D d.specModel d.specState id p)) else o
+    if (u ≠ 0 || d.kfresh / 4 % 2 = 1) then also o d "PA6.spec" (showSV (Spec.pointAcceleration6D d.specModel d.specState id p)) else o
   | "COM" =>
     let (u, _) := t.nat
     let (w, c) := calcCenterOfMass m d.w d.st d.qd (some d.qdd) true (u ≠ 0)
@@ -679,7 +682,7 @@ def afterSet (d : DS) (r : ModelS Q × Except Err Unit) (id : Nat) (name : Strin
     out { d with m := m', w := { d.w with Ic := upd d.w.Ic bid (m'.rbi bid) } } name "ok"
   | .error e => out { d with m := m' } name s!"err {errName e}"
 
-def step (d : DS) (line : String) : DS × Option String :=
+def step0 (d : DS) (line : String) : DS × Option String :=
   let toks := (line.trimAscii.toString.splitOn " ").filter (· ≠ "")
   match toks with
   | [] => (d, none)
@@ -760,7 +763,7 @@ def step (d : DS) (line : String) : DS × Option String :=
       let (n, t) := t.nat
       let (es, _) := parseQEntries t n
       ({ d with st := ⟨fun i => (es.getD i (0,1,0)).1, fun i => (es.getD i (0,1,0)).2.1,
-                        fun i => (es.getD i (0,1,0)).2.2⟩ }, none)
+                        fun i => (es.getD i (0,1,0)).2.2⟩, lastFDC := [] }, none)
     | "qd" => let (n, t) := t.nat; let (l, _) := t.rats n; ({ d with qd := vecOfList l, lastFDC := [] }, none)
     | "qdd" => let (n, t) := t.nat; let (l, _) := t.rats n; ({ d with qdd := vecOfList l }, none)
     | "tau" => let (n, t) := t.nat; let (l, _) := t.rats n; ({ d with tau := vecOfList l, lastFDC := [] }, none)
@@ -805,6 +808,34 @@ def step (d : DS) (line : String) : DS × Option String :=
     | "impl" => ({ d with impl := rest }, none)
     | "call" => let (d, s) := doCall d t; ({ d with impl := [] }, some s)
     | _ => let (d, s) := out d cmd "bad-op"; (d, some s)
+
+/-- bookkeeping of `DS.fresh` around `step0` -/
+def step (d : DS) (line : String) : DS × Option String :=
+  let toks := (line.trimAscii.toString.splitOn " ").filter (· ≠ "")
+  let (d', s) := step0 d line
+  let keep := ({ d' with kfresh := d.kfresh }, s)
+  let reset := ({ d' with kfresh := 0 }, s)
+  match toks with
+  | [] => keep
+  | "impl" :: _ => keep
+  | "call" :: "UK" :: _ => ({ d' with kfresh := 7 }, s)
+  | "call" :: "UKC" :: mk :: _ =>
+    let mask := mk.toNat?.getD 0
+    let b := fun (k : Nat) => (mask / 2 ^ k) % 2 = 1
+    let o := fun (k : Nat) => (d.kfresh / 2 ^ k) % 2 = 1
+    let fq := o 0 || b 0
+    let fv := fq && (b 1 || o 1)
+    let fa := fv && (b 2 || o 2)
+    ({ d' with kfresh := (if fq then 1 else 0) + (if fv then 2 else 0) + (if fa then 4 else 0) }, s)
+  | "call" :: nm :: args =>
+    if ["B2B", "BASE2B", "ORI", "PJ", "PJ6", "BSJ", "PV", "PV6", "PA", "PA6"].contains nm then
+      -- the update flag is the first 0/1 token after the numeric arguments
+      let u := match nm with
+        | "ORI" | "BSJ" => args.getD 1 "1"
+        | _ => args.getD 4 "1"
+      if u = "0" then keep else reset
+    else reset
+  | c :: _ => if c.startsWith "#" then keep else reset
 
 partial def skipLua (h : IO.FS.Stream) : IO Unit := do
   let line ← h.getLine
